@@ -5,7 +5,35 @@ Import ListNotations.
 Open Scope Q_scope.
 
 (* (distinct knots u_0 < .. < u_m, vertices P_0 .. P_m, point, returned parameters (floats, exact), curve unchanged) *)
-Definition case := (list Q * list pt * pt * res (list Q) * bool)%type.
+Definition case := (list Q * list pt * option (list Q) * pt * res (list Q) * bool)%type.
+
+(* a degree-1 NURBS with weights w_i is the polyline with a warped parameter: on the piece [a,b] with end weights w0, w1 and
+   s = (t-a)/(b-a) the point is P0 + lam (P1 - P0) with lam = s w1 / ((1-s) w0 + s w1).  warp: NURBS parameter -> polyline
+   parameter; unwarp: its inverse, s = lam w0 / (w1 - lam w1 + lam w0). *)
+Fixpoint wsegs (ks W : list Q) : list (Q * Q * Q * Q) :=
+  match ks, W with
+  | a :: ((b :: _) as kt), w0 :: ((w1 :: _) as wt) => (a, b, w0, w1) :: wsegs kt wt
+  | _, _ => []
+  end.
+Definition on_piece (t : Q) (s : Q * Q * Q * Q) : bool := let '(a, b, _, _) := s in Qleb a t && Qleb t b.
+Definition warp (ks : list Q) (W : option (list Q)) (t : Q) : Q :=
+  match W with
+  | None => t
+  | Some W => match filter (on_piece t) (wsegs ks W) with
+              | (a, b, w0, w1) :: _ => let s := (t - a) / (b - a) in
+                                       Qred (a + (b - a) * (s * w1 / ((1 - s) * w0 + s * w1)))
+              | [] => t
+              end
+  end.
+Definition unwarp (ks : list Q) (W : option (list Q)) (t : Q) : Q :=
+  match W with
+  | None => t
+  | Some W => match filter (on_piece t) (wsegs ks W) with
+              | (a, b, w0, w1) :: _ => let lam := (t - a) / (b - a) in
+                                       Qred (a + (b - a) * (lam * w0 / (w1 - lam * w1 + lam * w0)))
+              | [] => t
+              end
+  end.
 
 Definition eps : Q := 1 # 1000000.           (* the 1e-6 of the property *)
 Definition slack : Q := 2 # 1000000.
@@ -26,19 +54,19 @@ Definition poly_point (ks : list Q) (P : list pt) (u : Q) : pt :=
   end.
 
 Definition check_case (c : case) : verdict :=
-  let '(ks, P, x, r, unchanged) := c in
+  let '(ks, P, W, x, r, unchanged) := c in
   let cs := project_candidates ks P x in
   let m := qmin_list (map snd cs) in                       (* exact minimum of the squared distance *)
   let lo := nth 0 ks 0 in let hi := last ks 0 in
   let bound := m + 2 * slack * sqrt_hi m + slack * slack in (* (sqrt m + slack)^2, from above *)
-  let model := project_polyline ks P x in
+  let model := map (unwarp ks W) (project_polyline ks P x) in
   match r with
   | Err _ => mkv false false
   | Ok ts =>
       let prop :=
         unchanged && negb (Nat.eqb (length ts) 0) && increasing_le ts
         && forallb (fun t => Qleb lo t && Qleb t hi) ts
-        && forallb (fun t => Qleb (dist2 (poly_point ks P t) x) bound) ts in
+        && forallb (fun t => Qleb (dist2 (poly_point ks P (warp ks W t)) x) bound) ts in
       (* correspondence: the same SET of parameters up to 1e-6 (the library may repeat a parameter found from two starts) *)
       let corr := forallb (fun t => existsb (fun tm => Qleb (Qabs (t - tm)) slack) model) ts
                   && forallb (fun tm => existsb (fun t => Qleb (Qabs (t - tm)) slack) ts) model in
